@@ -177,6 +177,58 @@ def replay_depth():
     return dict(reproduced=bool(bad), log="\n".join(logs), what="; ".join(bad) or "every listed file is within the depth limit")
 
 
+def replay_report_timestamp():
+    """C04 on the real binary: a member of a group is rewritten (same length, new content, current mtime) WHILE `group` is
+    still running, after the file has been read; the dedupe command acting on the report must skip the group or leave
+    the changed file alone. A slow `--transform` program (cat, then sleep) keeps `group` running after the files were
+    read; every wait below is bounded."""
+    import time
+    exe, msg = build_binary()
+    if not exe:
+        return dict(reproduced=None, log="could not build the real binary: " + msg)
+    d = common.mkscratch("replay-c04")
+    tree, bindir, marks = (os.path.join(d, x) for x in ("t", "bin", "marks"))
+    for x in (tree, bindir, marks):
+        os.makedirs(x)
+    for name in ("a", "b"):
+        with open(os.path.join(tree, name), "wb") as f:
+            f.write(b"AAAA\n")
+    prog = os.path.join(bindir, "slowcat")
+    with open(prog, "w") as f:
+        f.write("#!/bin/sh\ncat\ntouch %s/$$\nsleep 2\n" % marks)
+    os.chmod(prog, 0o755)
+    env = dict(os.environ, PATH=bindir + os.pathsep + os.environ.get("PATH", ""))
+    report = os.path.join(d, "report.txt")
+    logs = []
+    with open(report, "wb") as out:
+        g = subprocess.Popen([exe, "group", "t", "--transform", "slowcat"], cwd=d, env=env, stdout=out, stderr=subprocess.DEVNULL)
+        t0 = time.time()
+        while len(os.listdir(marks)) < 2 and time.time() - t0 < 30 and g.poll() is None:
+            time.sleep(0.05)
+        both_read = len(os.listdir(marks)) >= 2
+        with open(os.path.join(tree, "b"), "wb") as f:      # an ordinary write: same length, new content, mtime = now
+            f.write(b"BBBB\n")
+        changed_at = time.time()
+        try:
+            g.wait(timeout=60)
+        except subprocess.TimeoutExpired:
+            g.kill()
+            return dict(reproduced=None, log="`group` did not finish within 60 s")
+    if not both_read:
+        return dict(reproduced=None, log="could not place the write after both files had been read")
+    head = [l for l in open(report, errors="replace").read().splitlines() if l.startswith("# Timestamp")]
+    logs.append("b rewritten %.2f s after `group` started (both files already read); report header: %s" % (changed_at - t0, head))
+    p = subprocess.run([exe, "remove"], cwd=d, env=env, stdin=open(report, "rb"), stdout=subprocess.PIPE, stderr=subprocess.STDOUT,
+                       text=True, timeout=60)
+    logs.append("remove < report: " + " | ".join(p.stdout.strip().splitlines()[-2:]))
+    left = {n: open(os.path.join(tree, n), "rb").read() for n in sorted(os.listdir(tree))}
+    logs.append("tree afterwards: %s" % {k: v.decode() for k, v in left.items()})
+    lost = b"BBBB\n" not in left.values()
+    return dict(reproduced=lost, log="\n".join(logs),
+                what=("the content written to t/b while `group` was running is gone: `remove` deleted t/b" if lost
+                      else "the changed file was left alone"))
+
+
 def replay_transform_frame():
     """C07 on the real binary: `group --transform ...` in every I/O mode must leave the scanned tree as it was."""
     exe, msg = build_binary()
